@@ -59,7 +59,7 @@ func c03Scenarios(tier string) []*hist.Scenario {
 		// deeper sync budget on single kinds
 		for _, f := range fams {
 			for _, op := range f.ops {
-				add(f.name, f.init, []string{op}, 2, 0, 2, 5, never)
+				add(f.name, f.init, []string{op}, 2, 0, 2, 4, never)
 			}
 		}
 		// server GC before snapshots
